@@ -36,6 +36,10 @@ def run(ctx):
     # no cross-talk within the rule's capacity: cells built for another capacity / another checker are never handed to the rule
     from . import rules_C11
     rules_C11.reuse_shape(ctx, f, "hotspot", cfg, R="C06.capacity/reuse-shape")
+    # which value a request is bucketed under: the keyed parameter has priority over the positional one and is looked up by the rule's
+    # (trimmed) key; a wrong extraction buckets traffic of different values together (rules of C05, run here for this property)
+    from . import rules_C05
+    rules_C05.extraction(ctx, f, cfg)
     rej = [b for b in checkers if not any(callee_is(t, "TokenResult::new_should_wait") for _, t in b.calls())]
     if ctx.floor("C06.decision", "hotspot reject checker", len(rej), 1):
         decision(ctx, f, rej[0], cfg)
@@ -170,6 +174,19 @@ def decision(ctx, f, b, cfg):
             return ("pass",)
         return None
     paths = w.walk(0, stop)
+
+    # a rejection leaves the bucket as it was: within one attempt no path that ends in Blocked writes a per-value cell (a rejected
+    # batch that "keeps the refilled tokens" without advancing the refill time mints tokens on every retry)
+    writes = set()
+    for bb, t in b.calls():
+        if atomic_op(t) in ("store", "compare_exchange", "compare_exchange_weak", "swap", "fetch_add", "fetch_sub", "fetch_update"):
+            at = sl.of_operand(t["args"][0])
+            if any_atom(at, "field:ParamsMetric.rule_token_counter") or any_atom(at, "field:ParamsMetric.rule_time_counter"):
+                writes.add(bb)
+    impure = sorted({b.loc(x) for pth in paths if pth["outcome"][0] == "blocked" for x in pth["blocks"] if x in writes})
+    ctx.instance("C06.decision/rejection-is-pure", b.path, {"cell_writes": len(writes), "on_paths_ending_in_blocked": impure}, "no cell is written on a path that rejects", not impure and len(writes) >= 3, cfg)
+    if impure:
+        ctx.violation("C06.decision", "C06.decision|rejection-writes-cell", "a rejected request writes a per-value cell (%s): rejected retries change the balance (tokens are minted without time passing)" % impure, b.loc(), config=cfg)
 
     def outcome(p, asg):
         k = p["outcome"][0]
